@@ -258,8 +258,9 @@ impl MerkleTree {
                 .iter()
                 .position(|root| root.index == parent.index);
             if let Some(r) = r {
+                // The offset of a new root is the sum of the roots before it in the changeset
                 for i in 0..r {
-                    tree_offset += self.roots[i].length;
+                    tree_offset += changeset.roots[i].length;
                 }
                 return Ok(Either::Right(tree_offset));
             }
